@@ -156,6 +156,27 @@ theorem client_recovers_item_data (e : Entry) (f : StoredFile) (k : Nat) (he : e
     rw [splitDownload_header _ _ _ _ (f.data.length - k) h.1 hisz (by omega)]
     rw [← hl, List.take_length, List.drop_length]
 
+/-- **An alias whose target is gone is the empty file it is announced as**: one file entry; on "send" (and on
+    "resume 0") the size prefix announces exactly the flattened-file header that follows, no data byte and no
+    trailer follow, and the dialogue goes on with the next item (`items_follow_actions`). -/
+theorem dangling_alias_is_an_empty_file (n : Bytes) (p : List Bytes) (hn : n.length < 65536) :
+    (Node.danglingAlias n).walk p = [⟨p, n, some (danglingFile n)⟩] ∧
+    (itemOut ⟨p, n, some (danglingFile n)⟩ .send).body =
+      be32 (danglingFile n).hdrLen ++ (danglingFile n).header 0 ∧
+    (itemOut ⟨p, n, some (danglingFile n)⟩ (.resume 0)).body =
+      be32 (danglingFile n).hdrLen ++ (danglingFile n).header 0 ∧
+    ((itemOut ⟨p, n, some (danglingFile n)⟩ .send).body.drop 4).length = rd32 (itemOut ⟨p, n, some (danglingFile n)⟩ .send).body := by
+  have hw := danglingFile_WF n hn
+  obtain ⟨hb, hp, hl⟩ := send_bytes ⟨p, n, some (danglingFile n)⟩ (danglingFile n) rfl hw
+  obtain ⟨rb, _, _⟩ := resume_bytes ⟨p, n, some (danglingFile n)⟩ (danglingFile n) 0 rfl hw (Nat.zero_le _)
+  have hfc : (danglingFile n).forkCount = 2 := rfl
+  have hrs : (danglingFile n).rsrcSize = 0 := rfl
+  have hd : (danglingFile n).data = [] := rfl
+  refine ⟨walk_file _ p, ?_, ?_, ?_⟩
+  · rw [hb, hfc, hrs, hd]; simp
+  · rw [rb, hrs, hd]; simp
+  · rw [hp, hl, hfc, hrs, hd]; simp
+
 -- ---------------------------------------------------------------- folder upload, item by item
 
 /-- **Already complete → skipped**: a file item whose name exists (and has no partial file) is answered
